@@ -250,9 +250,17 @@ def grain_methods(rm):
     out = {}
     for v in rm.variants("Grain"):
         if v.kind == "delegate" and v.raw[0] == "meth" and v.raw[1] == SELF:
-            cond, pol = v.conds[-1]
-            if pol and cond[0] == "cmp" and cond[1] == ("Eq",):
-                out[rm.enum_of_ir("Grain", cond[2][1])] = v.raw[2]
+            # the dispatch test of this arm: the innermost positive `<type> == <member>` on its path (tests on the RESULT of the
+            # builder -- `rate is NotImplemented` -- may follow it when the tail of the method was duplicated into the arms)
+            for cond, pol in reversed(v.conds):
+                if pol and cond[0] == "cmp" and cond[1] == ("Eq",) and len(cond[2]) == 2:
+                    try:
+                        tau = rm.enum_of_ir("Grain", cond[2][1])
+                    except Exception:
+                        tau = None
+                    if tau is not None:
+                        out[tau] = v.raw[2]
+                        break
     return out
 
 
